@@ -157,6 +157,10 @@ def _observe(rep: Report, tier: str, emitted: dict):
         wts = [_q(v) for v in c["wts"]]
         fvals = np.array([float(_q(v)) for v in c["fvals"]])
         centres = np.array([[float(_q(v)) for v in r] for r in c["centres"]])
+        if k % 2 == 0 and np.all(fvals == np.round(fvals)):
+            # "for all function value arrays": integer-valued samples handed over as the integer array a caller
+            # holds them in (counts, masks); the moments are the same real numbers
+            fvals = fvals.astype(np.int64)
         ckey = f"case={k}:dim={dim}:{c['kind']}"
         info = {"dim": dim, "points": [[str(v) for v in p] for p in pts], "weights": [str(v) for v in wts],
                 "fvals": fvals.tolist(), "centres": centres.tolist()}
